@@ -103,6 +103,10 @@ impl Scratch {
 
 impl Drop for Scratch {
     fn drop(&mut self) {
+        if std::env::var("VERIF_KEEP").is_ok() {
+            eprintln!("kept {}", self.0);
+            return;
+        }
         let _ = std::fs::remove_dir_all(&self.0);
     }
 }
